@@ -111,6 +111,130 @@ func c01NoCall(rel, fun string) bool {
 	return none
 }
 
+// c01AppendedIn: names v such that the body of range statement r contains `v = append(v, ...)`.
+func c01AppendedIn(r *ast.RangeStmt) []string {
+	var out []string
+	ast.Inspect(r.Body, func(n ast.Node) bool {
+		as, ok := n.(*ast.AssignStmt)
+		if !ok || len(as.Lhs) != 1 || len(as.Rhs) != 1 {
+			return true
+		}
+		c, ok := as.Rhs[0].(*ast.CallExpr)
+		if !ok || exprText(c.Fun) != "append" || len(c.Args) < 2 {
+			return true
+		}
+		if exprText(c.Args[0]) == exprText(as.Lhs[0]) {
+			out = append(out, exprText(as.Lhs[0]))
+		}
+		return true
+	})
+	return out
+}
+
+// c01NormLess: the returned expression of a comparator literal with the
+// sorted slice and the two parameters renamed to S, I, J (so that renaming a
+// local does not change the check).
+func c01NormLess(e ast.Expr, slice string) string {
+	fl, ok := e.(*ast.FuncLit)
+	if !ok || len(fl.Body.List) != 1 {
+		return ""
+	}
+	rs, ok := fl.Body.List[0].(*ast.ReturnStmt)
+	if !ok || len(rs.Results) != 1 {
+		return ""
+	}
+	var params []string
+	for _, f := range fl.Type.Params.List {
+		for _, n := range f.Names {
+			params = append(params, n.Name)
+		}
+	}
+	if len(params) != 2 {
+		return ""
+	}
+	ren := map[string]string{slice: "S", params[0]: "I", params[1]: "J"}
+	var b strings.Builder
+	txt := strings.Join(strings.Fields(exprText(rs.Results[0])), " ")
+	isId := func(c byte) bool {
+		return c == '_' || c >= '0' && c <= '9' || c >= 'a' && c <= 'z' || c >= 'A' && c <= 'Z'
+	}
+	for i := 0; i < len(txt); {
+		if isId(txt[i]) && (i == 0 || !isId(txt[i-1])) {
+			j := i
+			for j < len(txt) && isId(txt[j]) {
+				j++
+			}
+			w := txt[i:j]
+			if r, ok := ren[w]; ok && (i == 0 || txt[i-1] != '.') {
+				w = r
+			}
+			b.WriteString(w)
+			i = j
+			continue
+		}
+		b.WriteByte(txt[i])
+		i++
+	}
+	return b.String()
+}
+
+// c01SortedAfterFill: some `for ... range` in fd fills a slice v by append, and
+// after that loop v is sorted by a call to sortFun (with the comparator, if
+// given, equal to less after renaming). Returns the sort call.
+func c01SortedAfterFill(fd *ast.FuncDecl, sortFun, less string) (*ast.CallExpr, bool) {
+	return c01SortedAfterFillP(fd, sortFun, func(call *ast.CallExpr, v string) bool {
+		return less == "" || (len(call.Args) == 2 && c01NormLess(call.Args[1], v) == less)
+	})
+}
+
+func c01SortedAfterFillP(fd *ast.FuncDecl, sortFun string, accept func(call *ast.CallExpr, v string) bool) (*ast.CallExpr, bool) {
+	if fd == nil {
+		return nil, false
+	}
+	var found *ast.CallExpr
+	ast.Inspect(fd, func(n ast.Node) bool {
+		r, ok := n.(*ast.RangeStmt)
+		if !ok || found != nil {
+			return true
+		}
+		for _, v := range c01AppendedIn(r) {
+			if call, ok := c01Call(fd, sortFun, v, r.End()); ok && accept(call, v) {
+				found = call
+				return false
+			}
+		}
+		return true
+	})
+	return found, found != nil
+}
+
+// c01FromSetsList: the identifier passed as argument idx of the call to method
+// `method` in fd is assigned from a sets.List(...) call in fd.
+func c01FromSetsList(fd *ast.FuncDecl, method string, idx int) bool {
+	if fd == nil {
+		return false
+	}
+	ok := false
+	ast.Inspect(fd, func(n ast.Node) bool {
+		c, isc := n.(*ast.CallExpr)
+		if !isc || ok {
+			return true
+		}
+		sel, iss := c.Fun.(*ast.SelectorExpr)
+		if !iss || sel.Sel.Name != method || idx >= len(c.Args) {
+			return true
+		}
+		arg := exprText(c.Args[idx])
+		if strings.HasSuffix(arg, "...") {
+			arg = strings.TrimSuffix(arg, "...")
+		}
+		if c01Assigned(fd, arg, "sets.List") {
+			ok = true
+		}
+		return true
+	})
+	return ok
+}
 func genC01() {
 	g := newGen("C01Calls", "From Coq Require Import String List Bool.\nImport ListNotations.\nOpen Scope string_scope.\n")
 	var names []string
@@ -126,102 +250,146 @@ func genC01() {
 		g.def(name, "bool", v, what+" ["+p+"]")
 		names = append(names, name)
 	}
-	// sorted-after-range pattern
-	sortedAfterRange := func(name, rel, recv, fn, rangeX, sortFun, sortArg, less string) {
-		fd := findFunc(rel, recv, fn)
-		end, okR := c01Range(fd, rangeX)
-		call, okC := c01Call(fd, sortFun, sortArg, end)
-		ok := okR && okC
-		if ok && less != "" {
-			ok = len(call.Args) == 2 && c01LessBody(call.Args[1]) == less
+	node := func(c *ast.CallExpr, fd *ast.FuncDecl) ast.Node {
+		if c != nil {
+			return c
 		}
-		var where ast.Node
-		if call != nil {
-			where = call
+		if fd != nil {
+			return fd
 		}
-		emit(name, ok, where, fmt.Sprintf("%s %s: %s(%s) after `range %s`%s", rel, fn, sortFun, sortArg, rangeX, map[bool]string{true: " with less = " + less, false: ""}[less != ""]))
+		return nil
 	}
-	sortedAfterRange("c01_env_sorted", "pkg/build/oci/image.go", "", "BuildImageFromLayers", "env", "sort.Strings", "envs", "")
-	sortedAfterRange("c01_index_archs_sorted", "pkg/build/oci/index.go", "", "generateIndexWithMediaType", "imgs", "sort.Slice", "archs", "archs[i].String() < archs[j].String()")
-	sortedAfterRange("c01_sbom_archs_sorted", "pkg/build/sbom.go", "", "GenerateIndexSBOM", "imgs", "sort.Slice", "archs", "archs[i].String() < archs[j].String()")
-	sortedAfterRange("c01_readdir_sorted", "pkg/tarfs/fs.go", "memFS", "ReadDir", "anode.children", "sort.Slice", "de", "de[i].Name() < de[j].Name()")
-	sortedAfterRange("c01_installed_dirs_sorted", "pkg/apk/apk/installed.go", "", "sortTarHeaders", "directoryChildren", "sort.Strings", "dirEntries", "")
-	sortedAfterRange("c01_groups_sorted", "pkg/build/layers.go", "", "groupByOriginAndSize", "maps.Values(byOrigin)", "slices.SortFunc", "groups", "")
+	// "a range loop fills a slice by append; the slice is sorted after the loop"
+	// (the names of locals do not matter)
+	filled := func(name, rel, recv, fn, sortFun, less, what string) {
+		fd := findFunc(rel, recv, fn)
+		call, ok := c01SortedAfterFill(fd, sortFun, less)
+		emit(name, ok, node(call, fd), rel+" "+fn+": "+what)
+	}
+	filled("c01_env_sorted", "pkg/build/oci/image.go", "", "BuildImageFromLayers", "sort.Strings", "", "the slice filled by ranging over the environment map is sorted (sort.Strings) after the loop")
+	filled("c01_index_archs_sorted", "pkg/build/oci/index.go", "", "generateIndexWithMediaType", "sort.Slice", "S[I].String() < S[J].String()", "the architectures collected from the image map are sorted by String() <")
+	filled("c01_sbom_archs_sorted", "pkg/build/sbom.go", "", "GenerateIndexSBOM", "sort.Slice", "S[I].String() < S[J].String()", "the architectures collected from the image map are sorted by String() <")
+	filled("c01_readdir_sorted", "pkg/tarfs/fs.go", "memFS", "ReadDir", "sort.Slice", "S[I].Name() < S[J].Name()", "the entries collected from the children map are sorted by Name() <")
+	filled("c01_installed_dirs_sorted", "pkg/apk/apk/installed.go", "", "sortTarHeaders", "sort.Strings", "", "the keys collected from directoryChildren are sorted (sort.Strings)")
 	{
 		fd := findFunc("pkg/build/layers.go", "", "groupByOriginAndSize")
-		call, ok := c01Call(fd, "slices.SortFunc", "groups", 0)
-		txt := ""
-		if ok && len(call.Args) == 2 {
-			txt = strings.Join(strings.Fields(exprText(call.Args[1])), " ")
+		// the slice of groups: filled by ranging over maps.Values(<map>)
+		isGroups := func(call *ast.CallExpr, v string) bool { return !strings.Contains(v, ".") }
+		call, ok := c01SortedAfterFillP(fd, "slices.SortFunc", isGroups)
+		emit("c01_groups_sorted", ok, node(call, fd), "layers.go groupByOriginAndSize: the groups collected from the byOrigin map are sorted (slices.SortFunc) after the loop")
+		okc := false
+		if call != nil && len(call.Args) == 2 {
+			txt := c01NormLess(call.Args[1], exprText(call.Args[0]))
+			i1, i2 := strings.Index(txt, "cmp.Compare(J.size, I.size)"), strings.Index(txt, "cmp.Compare(I.tiebreaker, J.tiebreaker)")
+			okc = strings.HasPrefix(txt, "cmp.Or(") && i1 >= 0 && i2 > i1
 		}
-		i1, i2 := strings.Index(txt, "cmp.Compare(b.size, a.size)"), strings.Index(txt, "cmp.Compare(a.tiebreaker, b.tiebreaker)")
-		okc := strings.Contains(txt, "cmp.Or(") && i1 >= 0 && i2 > i1
-		var where ast.Node
-		if call != nil {
-			where = call
-		}
-		emit("c01_groups_comparator", okc, where, "layers.go groupByOriginAndSize: comparator is size descending, then tiebreaker ascending")
-		call2, ok2 := c01Call(fd, "slices.SortFunc", "g.pkgs", 0)
-		if call2 != nil {
-			where = call2
-		}
-		emit("c01_group_pkgs_sorted", ok2, where, "layers.go groupByOriginAndSize: slices.SortFunc(g.pkgs, by name)")
-		// the tiebreaker is the maximum package name
+		emit("c01_groups_comparator", okc, node(call, fd), "layers.go groupByOriginAndSize: comparator is size descending, then tiebreaker ascending")
+		// slices.SortFunc(<x>.pkgs, by Name)
+		var pk *ast.CallExpr
 		tb := false
-		ast.Inspect(fd, func(n ast.Node) bool {
-			as, isa := n.(*ast.AssignStmt)
-			if isa && len(as.Lhs) == 1 && exprText(as.Lhs[0]) == "g.tiebreaker" && strings.Join(strings.Fields(exprText(as.Rhs[0])), " ") == "max(g.tiebreaker, pkg.Name)" {
-				tb = true
-			}
-			return true
-		})
-		emit("c01_group_tiebreaker_is_max_name", tb, fd, "layers.go groupByOriginAndSize: g.tiebreaker = max(g.tiebreaker, pkg.Name)")
+		if fd != nil {
+			ast.Inspect(fd, func(n ast.Node) bool {
+				switch x := n.(type) {
+				case *ast.CallExpr:
+					if exprText(x.Fun) == "slices.SortFunc" && len(x.Args) == 2 && strings.HasSuffix(exprText(x.Args[0]), ".pkgs") &&
+						c01NormLess(x.Args[1], "") == "cmp.Compare(I.Name, J.Name)" {
+						pk = x
+					}
+				case *ast.AssignStmt:
+					if len(x.Lhs) == 1 && len(x.Rhs) == 1 && strings.HasSuffix(exprText(x.Lhs[0]), ".tiebreaker") {
+						l := exprText(x.Lhs[0])
+						r := strings.Join(strings.Fields(exprText(x.Rhs[0])), " ")
+						if strings.HasPrefix(r, "max("+l+", ") && strings.HasSuffix(r, ".Name)") {
+							tb = true
+						}
+					}
+				}
+				return true
+			})
+		}
+		emit("c01_group_pkgs_sorted", pk != nil, node(pk, fd), "layers.go groupByOriginAndSize: each group's packages are sorted by Name")
+		emit("c01_group_tiebreaker_is_max_name", tb, fd, "layers.go groupByOriginAndSize: <g>.tiebreaker = max(<g>.tiebreaker, <pkg>.Name)")
 	}
 	{
 		fd := findFunc("pkg/apk/apk/installed.go", "", "sortChildrenTarHeaders")
-		call, ok := c01Call(fd, "sort.Strings", "children", 0)
-		var where ast.Node
-		if call != nil {
-			where = call
+		var call *ast.CallExpr
+		if fd != nil && len(fd.Type.Params.List) == 3 && len(fd.Type.Params.List[2].Names) == 1 {
+			call, _ = c01Call(fd, "sort.Strings", fd.Type.Params.List[2].Names[0].Name, 0)
 		}
-		emit("c01_installed_children_sorted", ok, where, "installed.go sortChildrenTarHeaders: sort.Strings(children)")
+		emit("c01_installed_children_sorted", call != nil, node(call, fd), "installed.go sortChildrenTarHeaders: the children parameter is sorted (sort.Strings) first")
 	}
 	{
 		fd := findFunc("pkg/apk/apk/world.go", "APK", "SetWorld")
-		call, ok := c01Call(fd, "sort.Strings", "copied", 0)
-		var where ast.Node
+		call, ok := c01Call(fd, "sort.Strings", "", 0)
 		okj := false
-		if ok {
-			where = call
-			_, okj = c01Call(fd, "strings.Join", "copied", call.End())
+		if ok && len(call.Args) == 1 {
+			_, okj = c01Call(fd, "strings.Join", exprText(call.Args[0]), call.End())
 		}
-		emit("c01_world_sorted", ok && okj, where, "world.go SetWorld: sort.Strings(copied) before strings.Join(copied, ...)")
+		emit("c01_world_sorted", ok && okj, node(call, fd), "world.go SetWorld: the slice that is joined into etc/apk/world is sorted (sort.Strings) before")
 	}
 	{
 		fd := findFunc("pkg/build/apk.go", "Context", "initializeApk")
-		emit("c01_build_repos_set", c01Assigned(fd, "buildRepos", "sets.List"), fd, "apk.go initializeApk: buildRepos := sets.List(...)")
-		emit("c01_keyring_set", c01Assigned(fd, "keyring", "sets.List"), fd, "apk.go initializeApk: keyring := sets.List(...)")
-		emit("c01_packages_set", c01Assigned(fd, "packages", "sets.List"), fd, "apk.go initializeApk: packages := sets.List(...)")
+		emit("c01_build_repos_set", c01FromSetsList(fd, "InitDB", 1) && c01FromSetsList(fd, "SetRepositories", 1), fd, "apk.go initializeApk: InitDB / SetRepositories get a sets.List(...)")
+		emit("c01_keyring_set", c01FromSetsList(fd, "InitKeyring", 1), fd, "apk.go initializeApk: InitKeyring gets a sets.List(...)")
+		emit("c01_packages_set", c01FromSetsList(fd, "SetWorld", 1), fd, "apk.go initializeApk: SetWorld gets a sets.List(...) (plus base image packages)")
 		fd2 := findFunc("pkg/build/apk.go", "Context", "postBuildSetApk")
-		emit("c01_runtime_repos_set", c01Assigned(fd2, "runtimeRepos", "sets.List"), fd2, "apk.go postBuildSetApk: runtimeRepos := sets.List(...)")
+		emit("c01_runtime_repos_set", c01FromSetsList(fd2, "SetRepositories", 1), fd2, "apk.go postBuildSetApk: SetRepositories gets a sets.List(...)")
 	}
 	{
 		fd := findFunc("pkg/build/build.go", "Context", "GetBuildDateEpoch")
 		call, ok := c01Call(fd, "os.LookupEnv", `"SOURCE_DATE_EPOCH"`, 0)
-		var where ast.Node
-		if call != nil {
-			where = call
+		okAfter := false
+		if fd != nil {
+			ast.Inspect(fd, func(n ast.Node) bool {
+				if c, isc := n.(*ast.CallExpr); isc && strings.HasSuffix(exprText(c.Fun), ".BuildTime.After") {
+					okAfter = true
+				}
+				return true
+			})
 		}
-		_, okAfter := c01Call(fd, "p.BuildTime.After", "bde", 0)
-		emit("c01_bde_env_first", ok && okAfter, where, "build.go GetBuildDateEpoch: os.LookupEnv(SOURCE_DATE_EPOCH) decides, otherwise p.BuildTime.After(bde)")
+		emit("c01_bde_env_first", ok && okAfter, node(call, fd), "build.go GetBuildDateEpoch: os.LookupEnv(SOURCE_DATE_EPOCH) decides, otherwise the maximum by <p>.BuildTime.After")
 		fd2 := findFunc("internal/cli/build.go", "", "buildImageComponents")
-		_, ok2 := c01Call(fd2, "bde.After", "multiArchBDE", 0)
-		emit("c01_multiarch_bde_is_max", ok2, fd2, "internal/cli/build.go buildImageComponents: if bde.After(multiArchBDE) { multiArchBDE = bde }")
+		ok2 := false
+		if fd2 != nil {
+			ast.Inspect(fd2, func(n ast.Node) bool {
+				is, isif := n.(*ast.IfStmt)
+				if !isif || ok2 {
+					return true
+				}
+				c, isc := is.Cond.(*ast.CallExpr)
+				if !isc || len(c.Args) != 1 || !strings.HasSuffix(exprText(c.Fun), ".After") || len(is.Body.List) != 1 {
+					return true
+				}
+				x := strings.TrimSuffix(exprText(c.Fun), ".After")
+				y := exprText(c.Args[0])
+				if as, isa := is.Body.List[0].(*ast.AssignStmt); isa && len(as.Lhs) == 1 && exprText(as.Lhs[0]) == y && exprText(as.Rhs[0]) == x {
+					ok2 = true
+				}
+				return true
+			})
+		}
+		emit("c01_multiarch_bde_is_max", ok2, fd2, "internal/cli/build.go buildImageComponents: if <bde>.After(<m>) { <m> = <bde> }")
 	}
 	{
 		fd := findFunc("pkg/apk/apk/implementation.go", "APK", "InstallPackages")
-		_, okR := c01Range(fd, "done")
-		emit("c01_installer_in_index_order", okR, fd, "implementation.go InstallPackages: the installer goroutine ranges over done[] in index order")
+		okR := false
+		if fd != nil {
+			ast.Inspect(fd, func(n ast.Node) bool {
+				r, isr := n.(*ast.RangeStmt)
+				if !isr || okR || r.Value == nil {
+					return true
+				}
+				v := exprText(r.Value)
+				ast.Inspect(r.Body, func(m ast.Node) bool {
+					if u, isu := m.(*ast.UnaryExpr); isu && u.Op == token.ARROW && exprText(u.X) == v {
+						okR = true
+					}
+					return true
+				})
+				return true
+			})
+		}
+		emit("c01_installer_in_index_order", okR, fd, "implementation.go InstallPackages: one loop receives from the per-package channels in slice (index) order")
 	}
 	// no wall clock in the files that produce image bytes
 	var clockFiles []string
